@@ -1106,6 +1106,16 @@ class ViewsConfiguratorMixin:
                     multiview.add(old_view, old_order, old_phash, old_accept)
                 accept_order = self.registry.queryUtility(IAcceptOrder)
                 multiview.add(derived_view, order, phash, accept, accept_order)
+                # register the multiview before unregistering the single
+                # view it replaces: a lookup running in between then finds
+                # both (the old view first, as before this registration)
+                # instead of finding no view at all for this triad
+                self.registry.registerAdapter(
+                    multiview,
+                    (classifier, request_iface, context),
+                    IMultiView,
+                    name=name,
+                )
                 for view_type in (IView, ISecuredView):
                     # unregister any existing views
                     self.registry.adapters.unregister(
@@ -1113,12 +1123,6 @@ class ViewsConfiguratorMixin:
                         view_type,
                         name=name,
                     )
-                self.registry.registerAdapter(
-                    multiview,
-                    (classifier, request_iface, context),
-                    IMultiView,
-                    name=name,
-                )
 
         if mapper:
             mapper_intr = self.introspectable(
